@@ -32,18 +32,38 @@ type chainCase struct {
 	N      int    `json:"chain_length"`
 	Abs    bool   `json:"absolute_targets"`
 	Target string `json:"chain_end"` // "f" or "d"
+	// Cross (round 12): the links alternate between R (odd) and R/d (even), so
+	// that every target leaves the directory of its link ("d/c2", "../c3", or
+	// the absolute spelling): code that splices a target into the path restarts
+	// the walk there, and what it charges for a restart counts against the 40.
+	Cross bool `json:"cross_directory,omitempty"`
 }
 
 func (w *world) buildChain(c chainCase) (fsx.Res, error) {
 	name := func(i int) string { return fmt.Sprintf("c%d", i) }
-	target := func(i int) string {
-		t := c.Target
-		if i < c.N {
-			t = name(i + 1)
+	inD := func(i int) bool { return c.Cross && i%2 == 0 && i <= c.N } // link i lives in R/d
+	loc := func(i int) string {
+		if inD(i) {
+			return w.R + "/d/" + name(i)
 		}
 
-		if c.Abs {
+		return w.R + "/" + name(i)
+	}
+	target := func(i int) string {
+		t, tInD := c.Target, false
+		if i < c.N {
+			t, tInD = name(i+1), inD(i+1)
+		}
+
+		switch {
+		case c.Abs && tInD:
+			t = w.R + "/d/" + t
+		case c.Abs:
 			t = w.R + "/" + t
+		case inD(i) && !tInD:
+			t = "../" + t
+		case !inD(i) && tInD:
+			t = "d/" + t
 		}
 
 		return t
@@ -58,7 +78,7 @@ func (w *world) buildChain(c chainCase) (fsx.Res, error) {
 	}
 
 	for i := 1; i <= c.N; i++ {
-		if err := os.Symlink(target(i), w.R+"/"+name(i)); err != nil {
+		if err := os.Symlink(target(i), loc(i)); err != nil {
 			return fsx.Res{}, err
 		}
 	}
@@ -76,7 +96,7 @@ func (w *world) buildChain(c chainCase) (fsx.Res, error) {
 		}
 
 		for i := 1; i <= c.N; i++ {
-			errs = append(errs, v.Symlink(target(i), w.R+"/"+name(i)))
+			errs = append(errs, v.Symlink(target(i), loc(i)))
 		}
 
 		for _, err := range errs {
@@ -134,11 +154,13 @@ func chainSweep(w *world, e *evaluator, report func(sig kf.Sig, key [4]int, repl
 	st := chainStats{Classes: map[string]int{}}
 	ci := 0
 
-	for _, abs := range []bool{false, true} {
+	for _, shape := range [][2]bool{{false, false}, {true, false}, {false, true}, {true, true}} {
+		abs, cross := shape[0], shape[1]
+
 		for _, tgt := range []string{"f", "d"} {
 			for n := 1; n <= chainMax; n++ {
 				ci++
-				c := chainCase{N: n, Abs: abs, Target: tgt}
+				c := chainCase{N: n, Abs: abs, Target: tgt, Cross: cross}
 
 				setupRes, err := w.buildChain(c)
 				if err != nil {
@@ -204,7 +226,7 @@ func chainSweep(w *world, e *evaluator, report func(sig kf.Sig, key [4]int, repl
 							report(sig, [4]int{ci, 0, qi, ki}, map[string]any{
 								"chain": c, "query": cq.path, "call": cn, "kernel": e.clean(rk.String()), "avfs": e.clean(rv.String()),
 								"kernel_msg": e.clean(rk.Msg), "avfs_msg": e.clean(rv.Msg),
-								"note": "links R/c1 -> c2 -> ... -> cN -> chain_end (f = file R/f, d = directory R/d); absolute_targets: every target spelled R/<name>",
+								"note": "links R/c1 -> c2 -> ... -> cN -> chain_end (f = file R/f, d = directory R/d); absolute_targets: every target spelled R/<name>; cross_directory: the even links live in R/d, targets d/cK, ../cK (absolute: R/d/cK, R/cK)",
 							})
 						}
 					}
